@@ -62,7 +62,11 @@ Record howcfg := mkHowCfg {
   h_left_only : list string;          (* join_type in ["left anti", "left semi"] -> only the left columns *)
   h_cross_eq : string;                (* join_type != "cross" *)
   h_full_eq : string;                 (* join_type == "full outer" -> COALESCE of the keys *)
-  h_right_eq : string                 (* joins[0].args.get("side") == "right" -> resolve right-to-left *)
+  h_right_eq : string;                (* joins[0].args.get("side") == "right" -> resolve right-to-left *)
+  h_norm : bool;                      (* join() starts with  how = how.lower().replace("_", "")  (as Spark does) *)
+  h_none_eq : bool                    (* the `on is None` rewrite tests  how == <h_cross_in_none>  (only an inner join without
+                                         a condition becomes the product; every other kind is kept and joined ON TRUE)
+                                         instead of  <h_cross_in_none> not in how *)
 }.
 
 (** ** environment: sqlglot's reading of the join-type text, the engine's meaning, Spark's table *)
@@ -92,9 +96,9 @@ Definition engine_kind (p : option string * option string) : option jkind :=
   | _, _ => None
   end.
 
-(** Spark 3.5 JoinType.apply *)
-Definition spark_kind (how : string) : option jkind :=
-  let h := remove_char "_"%char (lower how) in
+(** Spark 3.5 JoinType.apply: lower-case, drop underscores, look up *)
+Definition norm_how (how : string) : string := remove_char "_"%char (lower how).
+Definition sk (h : string) : option jkind :=
   if smem h ["inner"] then Some JInner
   else if smem h ["outer"; "full"; "fullouter"] then Some JFull
   else if smem h ["leftouter"; "left"] then Some JLeft
@@ -103,6 +107,12 @@ Definition spark_kind (how : string) : option jkind :=
   else if smem h ["leftanti"; "anti"] then Some JAnti
   else if smem h ["cross"] then Some JCross
   else None.
+Definition spark_kind (how : string) : option jkind := sk (norm_how how).
+
+(** the spellings Spark's table knows, after normalisation *)
+Definition norm13 : list string :=
+  ["inner"; "outer"; "full"; "fullouter"; "leftouter"; "left"; "rightouter"; "right"; "leftsemi"; "semi";
+   "leftanti"; "anti"; "cross"].
 
 (** the spellings PySpark documents for [how] *)
 Definition documented : list string :=
@@ -119,7 +129,8 @@ Record hflags := mkFlags {
   f_right_side : bool }.
 
 Definition eff_how (c : howcfg) (on_none : bool) (how : string) : string :=
-  if on_none && negb (contains (h_cross_in_none c) how) then h_set_cross c
+  if on_none && (if h_none_eq c then String.eqb how (h_cross_in_none c) else negb (contains (h_cross_in_none c) how))
+  then h_set_cross c
   else if negb on_none && contains (h_cross_in_some c) how then h_set_inner c
   else how.
 
@@ -127,7 +138,10 @@ Definition join_type_text (c : howcfg) (on_none : bool) (how : string) : string 
   let h := eff_how c on_none how in
   replace_char (h_rep_from c) (h_rep_to c) (match assoc h (h_map c) with Some v => v | None => h end).
 
-Definition impl_flags (c : howcfg) (on_none : bool) (how : string) : hflags :=
+(** the spelling join() works with *)
+Definition pre_how (c : howcfg) (how : string) : string := if h_norm c then norm_how how else how.
+
+Definition flags_core (c : howcfg) (on_none : bool) (how : string) : hflags :=
   let jt := join_type_text c on_none how in
   let p := parse_join_type jt in
   mkFlags jt
@@ -136,6 +150,8 @@ Definition impl_flags (c : howcfg) (on_none : bool) (how : string) : hflags :=
     (String.eqb jt (h_cross_eq c))
     (String.eqb jt (h_full_eq c))
     (match p with Some (Some sd, _) => String.eqb sd (h_right_eq c) | _ => false end).
+
+Definition impl_flags (c : howcfg) (on_none : bool) (how : string) : hflags := flags_core c on_none (pre_how c how).
 
 Definition is_semi_anti (k : jkind) : bool := match k with JSemi | JAnti => true | _ => false end.
 
@@ -156,23 +172,39 @@ Definition how_ok (c : howcfg) (how : string) : bool :=
   | None => false
   end.
 
-(** ... and when no condition is given: Spark joins with the kind asked for and the condition TRUE;
-    the implementation is right exactly when it executes that kind (a product for inner/cross) *)
+(** ... and when no condition is given: Spark joins with the kind asked for and the condition TRUE.  An inner/cross join
+    then is the product; the other kinds have to keep their kind (and its flags) -- which the implementation does only when
+    [h_none_eq] (before that it turned every kind into the product) *)
+Definition none_dom (c : howcfg) (k : jkind) : bool :=
+  h_none_eq c || jkind_eqb k JInner || jkind_eqb k JCross.
+Definition none_flags (k : jkind) (f : hflags) : bool :=
+  match k with
+  | JInner | JCross =>
+      match f_kind f with Some JCross => f_cross f && negb (f_left_only f) && negb (f_right_side f) | _ => false end
+  | _ => flags_for k f
+  end.
 Definition how_ok_none (c : howcfg) (how : string) : bool :=
   match spark_kind how with
-  | Some k =>
-      let f := impl_flags c true how in
-      match f_kind f with
-      | Some JCross => (jkind_eqb k JInner || jkind_eqb k JCross) && f_cross f && negb (f_left_only f)
-                       && negb (f_right_side f)
-      | _ => false
-      end
+  | Some k => negb (none_dom c k) || none_flags k (impl_flags c true how)
+  | None => false
+  end.
+Definition how_ok_none_n (c : howcfg) (h : string) : bool :=
+  match sk h with
+  | Some k => negb (none_dom c k) || none_flags k (flags_core c true h)
   | None => false
   end.
 
-Definition cfg_how_ok (c : howcfg) : bool := forallb (how_ok c) documented.
-(** the two spellings whose meaning without a condition is the product *)
-Definition cfg_none_ok (c : howcfg) : bool := forallb (how_ok_none c) ["inner"; "cross"].
+(** a normalised spelling is handled correctly once join() has normalised it *)
+Definition how_ok_n (c : howcfg) (h : string) : bool :=
+  match sk h with
+  | Some k => flags_for k (flags_core c false h)
+  | None => false
+  end.
+
+Definition cfg_how_ok (c : howcfg) : bool :=
+  forallb (how_ok c) documented && (negb (h_norm c) || forallb (how_ok_n c) norm13).
+Definition cfg_none_ok (c : howcfg) : bool :=
+  forallb (how_ok_none c) documented && (negb (h_norm c) || forallb (how_ok_none_n c) norm13).
 
 (** every documented spelling reaches the join kind Spark gives it, with the flags of that kind *)
 Theorem how_total (c : howcfg) :
@@ -180,8 +212,68 @@ Theorem how_total (c : howcfg) :
   forall how, In how documented ->
     exists k, spark_kind how = Some k /\ flags_for k (impl_flags c false how) = true.
 Proof.
-  intros H how Hin. unfold cfg_how_ok in H. rewrite forallb_forall in H. specialize (H how Hin).
+  intros H how Hin. unfold cfg_how_ok in H. apply andb_true_iff in H. destruct H as [H _].
+  rewrite forallb_forall in H. specialize (H how Hin).
   unfold how_ok in H. destruct (spark_kind how) as [k|]; [|discriminate]. exists k. auto.
+Qed.
+
+Lemma smem_in x l : smem x l = true -> In x l.
+Proof.
+  unfold smem. intro H. apply existsb_exists in H. destruct H as [y [Hy E]]. apply String.eqb_eq in E. subst. exact Hy.
+Qed.
+
+Lemma sk_in h k : sk h = Some k -> In h norm13.
+Proof.
+  unfold sk, norm13. intro H.
+  repeat match type of H with
+         | (if smem h ?l then _ else _) = _ =>
+             let E := fresh "E" in destruct (smem h l) eqn:E;
+             [apply smem_in in E; simpl in E; simpl; tauto|]
+         end.
+  discriminate.
+Qed.
+
+(** when join() normalises the spelling the way Spark does, EVERY string Spark accepts (any case, any underscores) reaches
+    its kind with that kind's flags *)
+Theorem how_total_all (c : howcfg) :
+  h_norm c = true -> cfg_how_ok c = true ->
+  forall how k, spark_kind how = Some k -> flags_for k (impl_flags c false how) = true.
+Proof.
+  intros Hn H how k Hk. unfold cfg_how_ok in H. apply andb_true_iff in H. destruct H as [_ H].
+  rewrite Hn in H. cbn [negb orb] in H. rewrite forallb_forall in H.
+  unfold spark_kind in Hk. specialize (H _ (sk_in _ _ Hk)). unfold how_ok_n in H. rewrite Hk in H.
+  unfold impl_flags, pre_how. rewrite Hn. exact H.
+Qed.
+
+(** the spellings inside the theorems' domain: all that Spark accepts when join() normalises, the documented ones otherwise *)
+Definition how_accepted (c : howcfg) (how : string) : bool :=
+  if h_norm c then match spark_kind how with Some _ => true | None => false end else smem how documented.
+Definition none_accepted (c : howcfg) (how : string) : bool :=
+  how_accepted c how && match spark_kind how with Some k => none_dom c k | None => false end.
+
+Lemma accepted_kind c how :
+  cfg_how_ok c = true -> how_accepted c how = true ->
+  exists k0, spark_kind how = Some k0 /\ flags_for k0 (impl_flags c false how) = true.
+Proof.
+  intros Hc Ha. unfold how_accepted in Ha. destruct (h_norm c) eqn:Hn.
+  - destruct (spark_kind how) as [k|] eqn:Hk; [|discriminate]. exists k. split; [reflexivity|].
+    apply (how_total_all c Hn Hc how k Hk).
+  - apply (how_total c Hc). apply smem_in. exact Ha.
+Qed.
+
+Lemma none_accepted_ok c how :
+  cfg_none_ok c = true -> none_accepted c how = true ->
+  exists k, spark_kind how = Some k /\ none_dom c k = true /\ none_flags k (impl_flags c true how) = true.
+Proof.
+  intros Hc Ha. unfold cfg_none_ok in Hc. apply andb_true_iff in Hc. destruct Hc as [Hd Hn13].
+  unfold none_accepted in Ha. apply andb_true_iff in Ha. destruct Ha as [Ha Hk].
+  destruct (spark_kind how) as [k|] eqn:Ek; [|discriminate]. exists k. split; [reflexivity|]. split; [exact Hk|].
+  unfold how_accepted in Ha. destruct (h_norm c) eqn:Hn.
+  - cbn [negb orb] in Hn13. rewrite forallb_forall in Hn13. unfold spark_kind in Ek.
+    specialize (Hn13 _ (sk_in _ _ Ek)). unfold how_ok_none_n in Hn13. rewrite Ek, Hk in Hn13. cbn [negb orb] in Hn13.
+    unfold impl_flags, pre_how. rewrite Hn. exact Hn13.
+  - rewrite forallb_forall in Hd. specialize (Hd how (smem_in _ _ Ha)). unfold how_ok_none in Hd.
+    rewrite Ek, Hk in Hd. exact Hd.
 Qed.
 
 (** Spark's own table sends the 18 documented spellings onto the 7 kinds, each kind is reached *)
@@ -197,7 +289,17 @@ Definition pinned_cfg : howcfg :=
     [("outer", "full_outer"); ("full", "full_outer"); ("fullouter", "full_outer"); ("left", "left_outer");
      ("leftouter", "left_outer"); ("right", "right_outer"); ("rightouter", "right_outer");
      ("semi", "left_semi"); ("leftsemi", "left_semi"); ("anti", "left_anti"); ("leftanti", "left_anti")]
-    "cross" "cross" "cross" "inner" "_"%char " "%char ["left anti"; "left semi"] "cross" "full outer" "right".
+    "cross" "cross" "cross" "inner" "_"%char " "%char ["left anti"; "left semi"] "cross" "full outer" "right" false false.
+
+(** the same source with `how = how.lower().replace("_", "")` in front *)
+Definition pinned_cfg_norm : howcfg :=
+  mkHowCfg (h_map pinned_cfg) "cross" "cross" "cross" "inner" "_"%char " "%char ["left anti"; "left semi"] "cross" "full outer" "right" true false.
+Example pinned_cfg_norm_ok : cfg_how_ok pinned_cfg_norm = true /\ cfg_none_ok pinned_cfg_norm = true.
+Proof. vm_compute. split; reflexivity. Qed.
+Example normalised_accepts_case_variants :
+  map (fun h => flags_for (match spark_kind h with Some k => k | None => JInner end) (impl_flags pinned_cfg_norm false h))
+      ["FULL"; "LEFT_SEMI"; "RIGHT"; "leftOuter"; "Full_Outer"; "l_e_f_t"] = [true; true; true; true; true; true].
+Proof. vm_compute. reflexivity. Qed.
 
 Example pinned_cfg_ok : cfg_how_ok pinned_cfg = true /\ cfg_none_ok pinned_cfg = true.
 Proof. vm_compute. split; reflexivity. Qed.
@@ -208,7 +310,15 @@ Example upper_case_spellings_not_ok :
   [false; false; false; false; true; true].
 Proof. vm_compute. reflexivity. Qed.
 
-(** without a condition only inner and cross are executed as Spark does *)
+(** without a condition only inner and cross were executed as Spark does ... *)
 Example no_condition_only_inner_cross :
-  filter (how_ok_none pinned_cfg) documented = ["inner"; "cross"].
+  filter (fun h => none_flags (match spark_kind h with Some k => k | None => JInner end) (impl_flags pinned_cfg true h)) documented
+  = ["inner"; "cross"].
 Proof. vm_compute. reflexivity. Qed.
+
+(** ... until the rewrite to the product was restricted to how == "inner" *)
+Definition pinned_cfg_none : howcfg :=
+  mkHowCfg (h_map pinned_cfg) "inner" "cross" "cross" "inner" "_"%char " "%char ["left anti"; "left semi"] "cross" "full outer" "right" true true.
+Example pinned_cfg_none_ok : cfg_how_ok pinned_cfg_none = true /\ cfg_none_ok pinned_cfg_none = true
+  /\ forallb (fun h => none_flags (match spark_kind h with Some k => k | None => JInner end) (impl_flags pinned_cfg_none true h)) documented = true.
+Proof. vm_compute. repeat split; reflexivity. Qed.
